@@ -240,6 +240,24 @@ impl Monitor for C06 {
 					out.sample = Some(json!({"case": idx, "seed": seed.name, "operator": op, "mutation": what, "input_bytes": bytes.len()}));
 				}
 			}
+			// history control: after hundreds of hostile inputs in this process the pristine seed must
+			// still be accepted in every mode (no state may survive a failed read)
+			if ctx.only_sub.is_none() {
+				let pristine = Arc::new(seed.bytes.clone());
+				for mode in 0..5 {
+					if mode >= 2 && mode <= 3 && seed.model.ends.is_empty() {
+						continue; // skip-frames needs a finished replay
+					}
+					let (o, _) = run_mode(&pristine, mode, None, &dbg_dir, |_| {});
+					out.evals += 1;
+					match o {
+						Outcome::Ok => out.count("pristine_seed_accepted_after_hostile_inputs", 1),
+						Outcome::Err(e) => out.violate(format!("valid-input-rejected-after-hostile-inputs;mode={}", MODES[mode]), format!("seed [{}] is rejected in mode {} after the hostile inputs of this case: {}", seed.name, MODES[mode], e), Some(&seed.bytes)),
+						Outcome::Panic(loc, msg) => out.violate(format!("panic;{};{}", norm_loc(&loc), norm_msg(&msg)), format!("seed [{}] pristine, mode {}: panic at {}: {}", seed.name, MODES[mode], loc, msg), Some(&seed.bytes)),
+						Outcome::Spin => out.violate("eof-spin;pristine", format!("seed [{}] pristine: EOF spin", seed.name), Some(&seed.bytes)),
+					}
+				}
+			}
 		} else {
 			// I/O fault enumeration
 			let j = idx - nm;
